@@ -133,7 +133,8 @@ namespace dllexports
     {
         auto actual = reinterpret_cast<instance*>(in);
 
-        if (actual->seq[0] == 'S' && actual->seq[1] == 'Q' && actual->seq[2] == 'F' && actual->seq[3] == 'E')
+        // (a null handle is no instance, like for every other entry point)
+        if (in && actual->seq[0] == 'S' && actual->seq[1] == 'Q' && actual->seq[2] == 'F' && actual->seq[3] == 'E')
         {
             actual->seq[0] = '\0';
             actual->seq[1] = '\0';
